@@ -965,7 +965,11 @@ impl Circuit {
                         let l = if let Some(i) = l.get_gate_no() {
                             let l = gate_map[i];
                             neg_out ^= l.is_negative();
-                            l.positive()
+                            let l = l.positive();
+                            if l == Literal::FALSE {
+                                continue; // the gate simplified to a constant
+                            }
+                            l
                         } else {
                             let l = l.positive();
                             debug_assert!(l != Literal::TRUE);
@@ -988,7 +992,7 @@ impl Circuit {
                 gate_map[index] = match kind {
                     GateKind::And => Literal::TRUE,
                     GateKind::Or => Literal::FALSE,
-                    GateKind::Xor => Literal::TRUE ^ neg_out,
+                    GateKind::Xor => Literal::FALSE ^ neg_out,
                 };
                 return Ok(());
             }
@@ -1041,9 +1045,18 @@ impl Circuit {
                 });
             }
             // second part of condition 4
-            if let [l] = &inputs[..] {
-                gate_map[index] = *l ^ neg_out;
-                return Ok(());
+            match &inputs[..] {
+                [] => {
+                    // all inputs of an XOR gate cancelled each other out
+                    debug_assert!(kind == GateKind::Xor);
+                    gate_map[index] = Literal::FALSE ^ neg_out;
+                    return Ok(());
+                }
+                [l] => {
+                    gate_map[index] = *l ^ neg_out;
+                    return Ok(());
+                }
+                _ => {}
             }
 
             // save the children in the current order and sort
